@@ -315,6 +315,126 @@ func c10Build(c c10cfg) func(hist []string) hx.GView {
 	}
 }
 
+// ---- S part: a user operation arrives while an outbound connection is being established ----
+
+// op: unregister | cancel | shutdown; when: dial (the dial is on its way) | handshake (the connection exists, the handshake runs)
+func c10RaceBody(op, when string, bTrustsA bool) func() {
+	return func() {
+		simrt.ClearTraceHooks()
+		fakews.SetLatency(time.Millisecond)
+		a := hubx.NewNode("A", 0, 4711)
+		b := hubx.NewNode("B", 1, 4712)
+		if bTrustsA {
+			b.Hub.RegisterRemoteSKI(a.SKI)
+		}
+		// B never dials: what A does is what counts
+		fakews.SetDialFault(func(port string, n int) bool { return port == "4711" })
+		a.Start()
+		b.Start()
+		simrt.RunFor(100 * time.Millisecond)
+		simrt.Mark()
+		done := false
+		cancelCovered := true
+		simrt.Go("user", func() {
+			switch when {
+			case "dial":
+				simrt.Block("dial-on-its-way", func() bool {
+					for _, d := range fakehttp.Dials() {
+						if d.From == a.SKI {
+							return true
+						}
+					}
+					return false
+				})
+			case "handshake":
+				simrt.Block("link-exists", func() bool { return len(fakews.Links()) > 0 })
+			}
+			switch op {
+			case "unregister":
+				a.Hub.UnregisterRemoteSKI(b.SKI)
+			case "cancel":
+				// C10 speaks about cancelling a pending pairing: a handshake that waits for trust (hello pending / ready
+				// listen); a cancel before the connection exists or during other handshake phases is not covered by it
+				cancelCovered = false
+				if c, ok := registry(a)[b.SKI]; ok {
+					if sc, ok := c.(api.ShipConnectionInterface); ok {
+						if st, _ := sc.ShipHandshakeState(); uint(st) == 11 || uint(st) == 8 {
+							cancelCovered = true
+						}
+					}
+				}
+				a.Hub.CancelPairingWithSKI(b.SKI)
+			case "shutdown":
+				a.Hub.Shutdown()
+			}
+			done = true
+		})
+		a.Hub.RegisterRemoteSKI(b.SKI) // queued: the hub dials at once
+		simrt.RunFor(50 * time.Millisecond)
+		simrt.Unmark()
+		simrt.RunFor(15 * time.Second)
+		if !done {
+			simrt.Outcome("user operation never happened")
+			return
+		}
+		c, has := registry(a)[b.SKI]
+		if op == "cancel" && !cancelCovered {
+			simrt.Outcome("cancel outside the pending phase")
+			return
+		}
+		switch op {
+		case "unregister", "cancel":
+			if a.Hub.IsRemoteServiceForSKIPaired(b.SKI) {
+				simrt.Fail("C10|trusted-after-unregister", "B is trusted although the user's last word was %s (during %s)", op, when)
+			}
+			if has && completed(c) {
+				simrt.Fail("C10|connected-after-unregister", "a completed connection to B exists 15 s after the user's %s, which arrived while the connection was being established (%s)", op, when)
+			}
+			if has {
+				if sc, ok := c.(api.ShipConnectionInterface); ok {
+					if closed, _ := sc.DataHandler().IsDataConnectionClosed(); !closed && op == "unregister" {
+						simrt.Fail("C10|connection-open-after-unregister", "a connection to B is still open 15 s after the user unregistered it (%s)", when)
+					}
+				}
+			}
+		case "shutdown":
+			if has || openLinks() > 0 {
+				simrt.Fail("C10|connection-after-shutdown", "a connection to B exists / a socket is open 15 s after Shutdown returned (registered=%v open sockets=%d; %s)", has, openLinks(), when)
+			}
+		}
+		mark := 0
+		for _, d := range fakehttp.Dials() {
+			if d.From == a.SKI && d.At > 200*time.Millisecond {
+				mark++
+			}
+		}
+		if mark > 0 && op != "cancel" {
+			simrt.Fail("C10|dial-unregistered", "hub A dialled B %d more time(s) after the user's %s", mark, op)
+		}
+		simrt.Outcome(fmt.Sprintf("has=%v completed=%v paired=%v open=%d dials=%d", has, has && completed(c), a.Hub.IsRemoteServiceForSKIPaired(b.SKI), openLinks(), len(fakehttp.Dials())))
+	}
+}
+
+func c10Scenarios(r *hx.Run) []hx.Scenario {
+	var out []hx.Scenario
+	pb := 1
+	if r.Thorough() {
+		pb = 2
+	}
+	for _, op := range []string{"unregister", "cancel", "shutdown"} {
+		for _, when := range []string{"dial", "handshake"} {
+			for _, bt := range []bool{true, false} {
+				if !r.Thorough() && !bt && when == "handshake" && op != "cancel" {
+					continue
+				}
+				out = append(out, hx.Scenario{Name: fmt.Sprintf("c10:race:%s-during-%s/bTrustsA=%v", op, when, bt), Body: c10RaceBody(op, when, bt), Bounds: simrt.B(pb, 0, 0),
+					Cfg: simrt.Config{MaxSteps: 400000, BranchAfterMark: true, BranchOnly: []string{"user"}}})
+			}
+		}
+	}
+	return out
+}
+
 func c10Main(r *hx.Run) {
 	depth := 4
 	if r.Thorough() {
@@ -331,13 +451,44 @@ func c10Main(r *hx.Run) {
 		}
 	}
 	if r.Worker {
+		if hx.WorkerMode() == "s" {
+			hx.SWorker(c10Scenarios(r))
+			return
+		}
 		hx.GWorker(ms)
 		return
+	}
+	if r.ReplayIn != "" {
+		var art struct {
+			Replay struct {
+				Scenario string `json:"scenario"`
+			} `json:"replay"`
+		}
+		hx.ReadJSON(r.ReplayIn, &art)
+		if art.Replay.Scenario != "" {
+			hx.MaybeReplay(r, c10Scenarios(r))
+		}
 	}
 	hx.GMaybeReplay(r, ms)
 	sum := hx.GExploreAll(r, ms)
 	viol := hx.GConfirm(sum, ms)
 	cov := sum.Coverage()
+	// S part
+	hx.SetWorkerMode("s")
+	scens := c10Scenarios(r)
+	ss := hx.ExploreAll(r, scens, false, 0)
+	for k := range ss.Found {
+		if !strings.HasPrefix(k, "C10|") && !strings.HasPrefix(k, "panic|") && !strings.HasPrefix(k, "engine|") {
+			delete(ss.Found, k)
+		}
+	}
+	viol = append(viol, hx.ConfirmViolations(ss, scens)...)
+	sc := ss.Coverage()
+	cov["user_operation_race_scenarios"] = len(scens)
+	cov["user_operation_race_executions"] = sc["executions"]
+	cov["user_operation_race_completed_bound"] = sc["completed_deviation_bound"]
+	cov["user_operation_race_outcomes"] = sc["outcomes"]
+	cov["exhaustive"] = cov["exhaustive"].(bool) && sc["exhaustive"].(bool)
 	cov["configurations"] = len(ms)
 	cov["events"] = c10Events
 	r.Finish(hx.Result{Level: "model_checking", Coverage: cov,
